@@ -121,7 +121,7 @@ def gen_cases(ctx) -> List[Dict[str, Any]]:
             for attempt in range(6 if ctx.tier == "quick" else 30):
                 cases.append({"behaviour": f"flood_noline:{size}", "exit": e, "moment": "before_first", "idle": 0.1, "attempt": attempt})
     # lines that are huge JSON arrays of non-messages: the walk through one line must not hold the exit up
-    for n in ((300_000,) if ctx.tier == "quick" else (300_000, 2_000_000)):
+    for n in ((1_000_000,) if ctx.tier == "quick" else (300_000, 1_000_000, 2_000_000)):
         for e in ("normal", "cancel", "fail_after"):
             cases.append({"behaviour": f"junk_batch:{n}", "exit": e, "moment": "before_first", "idle": 0.3})
     # a request made through the per-request API is still unanswered when the context is left (every exit path)
